@@ -66,17 +66,28 @@ def run_one(mod, case):
     try:
         rec = mod.run_case(case)
         if isinstance(rec, dict) and isinstance(rec.get('cov'), dict):
-            for k_ in ('built', 'failed'):
-                if _gen.DECOY_STATS[k_] > d0[k_]:
-                    rec['cov']['sibling_grid_warmups_' + k_] = _gen.DECOY_STATS[k_] - d0[k_]
+            for k_ in ('built', 'failed', 'built_reversed'):
+                if _gen.DECOY_STATS.get(k_, 0) > d0.get(k_, 0):
+                    rec['cov']['sibling_grid_warmups_' + k_] = _gen.DECOY_STATS.get(k_, 0) - d0.get(k_, 0)
     except CaseTimeout:
         rec = {'verdict': 'inconclusive', 'key': 'watchdog', 'nontrivial': False,
                'msg': 'per-case watchdog fired'}
     except Exception as e:
         tb = traceback.extract_tb(e.__traceback__)
-        inner = tb[-1].filename if tb else ''
         from . import REPO_SRC
-        if os.path.realpath(inner).startswith(os.path.realpath(REPO_SRC) + os.sep):
+        # who raised: the innermost frame that belongs either to the library or to the monitoring code decides (an exception
+        # coming out of numpy / scipy is the library's if the library made that call, ours if we did)
+        lib_root = os.path.realpath(REPO_SRC) + os.sep
+        own_root = os.path.dirname(os.path.realpath(__file__)) + os.sep
+        inner, where = '', None
+        for fr in reversed(tb):
+            rp_ = os.path.realpath(fr.filename)
+            if rp_.startswith(lib_root) or rp_.startswith(own_root):
+                inner, where = rp_, fr
+                break
+        if where is not None:
+            tb = list(tb[:tb.index(where) + 1])
+        if inner.startswith(lib_root):
             # raised by the library itself while executing a call every property presupposes to complete (the generators
             # only produce documented, valid inputs; on the unchanged tree this never happens): the property cannot hold
             rec = {'verdict': 'violated', 'mech': 'library-exception/%s' % type(e).__name__, 'key': 'library-exception', 'nontrivial': True,
